@@ -27,18 +27,23 @@ def run(check: Check) -> None:
     # native cross-validation: the same harness functions, untraced, over a concrete grid (vouches that CrossHair executed faithfully)
     import itertools
 
-    grid_ok = all(
-        [ch_c19.lm_lookup({1: 2}, {1: 3, 4: 5}, {4: 6, 9: 9}, k) for k in (1, 4, 9, 0)]
-        + [ch_c19.lm_len_iter({1: 2, 3: 3}, {1: 3, 4: 5})]
-        + [ch_c19.lm_write({1: 2}, {3: 4}, k, 9, k2) for k in (1, 3, 0) for k2 in (1, 3, 0, 7)]
-        + [ch_c19.lm_delete({1: 2}, {3: 4}, k, 9, k2) for k in (1, 3, 0) for k2 in (1, 3, 0)]
-        + [ch_c19.lm_write_len({1: 2}, {1: 5, 3: 4}, k, 9) for k in (1, 3, 0)]
-        + [ch_c19.lm_with_layers({1: 2}, {1: 4, 2: 2}, k, 9, k2, p) for k in (1, 2, 0) for k2 in (0, 1, 2) for p in (True, False)]
-        + [ch_c19.lm_layer_names({1: 2}, {3: 4}, k, 0, w) for k in (1, 3, 0) for w in (True, False)]
-        + [f(i, 1, 2, 3, 4) for f in (ch_c19.st_map, ch_c19.st_simplify) for i in range(ch_c19.NSHAPES)]
-        + [ch_c19.st_update_merge(i, 1, 2, 3, 4, 9) for i in range(ch_c19.NSHAPES)]
-        + [ch_c19.sf_ops(a, i, t, b, j, u) for a in range(3) for b in range(3) for i in range(-4, 4) for j in range(-4, 4) for t in range(3) for u in range(3)]
-    )
+    def _grid():
+        return all(
+            [ch_c19.lm_lookup({1: 2}, {1: 3, 4: 5}, {4: 6, 9: 9}, k) for k in (1, 4, 9, 0)]
+            + [ch_c19.lm_len_iter({1: 2, 3: 3}, {1: 3, 4: 5})]
+            + [ch_c19.lm_write({1: 2}, {3: 4}, k, 9, k2) for k in (1, 3, 0) for k2 in (1, 3, 0, 7)]
+            + [ch_c19.lm_delete({1: 2}, {3: 4}, k, 9, k2) for k in (1, 3, 0) for k2 in (1, 3, 0)]
+            + [ch_c19.lm_write_len({1: 2}, {1: 5, 3: 4}, k, 9) for k in (1, 3, 0)]
+            + [ch_c19.lm_with_layers({1: 2}, {1: 4, 2: 2}, k, 9, k2, p) for k in (1, 2, 0) for k2 in (0, 1, 2) for p in (True, False)]
+            + [ch_c19.lm_layer_names({1: 2}, {3: 4}, k, 0, w) for k in (1, 3, 0) for w in (True, False)]
+            + [f(i, 1, 2, 3, 4) for f in (ch_c19.st_map, ch_c19.st_simplify) for i in range(ch_c19.NSHAPES)]
+            + [ch_c19.st_update_merge(i, 1, 2, 3, 4, 9) for i in range(ch_c19.NSHAPES)]
+            + [ch_c19.sf_ops(a, i, t, b, j, u) for a in range(3) for b in range(3) for i in range(-4, 4) for j in range(-4, 4) for t in range(3) for u in range(3)]
+        )
+    try:
+        grid_ok = _grid()
+    except Exception:  # an exception escaping from the class under test is a failed law, not a harness problem
+        grid_ok = False
     check.obligation("containers/native cross-validation", "ground" if grid_ok else "refuted")
     if not grid_ok:  # reproduced natively by construction: report the first failing law
         probes = [("lm_lookup", [{1: 2}, {1: 3, 4: 5}, {4: 6, 9: 9}, 4]), ("lm_len_iter", [{1: 2, 3: 3}, {1: 3, 4: 5}]), ("lm_write", [{1: 2}, {3: 4}, 1, 9, 3]),
